@@ -84,6 +84,11 @@ class Prog(object):
                     got += r
                 rec[1] = "ok"
                 rec[2] = bytes(got)
+            elif kind == "readmin":
+                # one call that must span several records
+                r = yield from drive.aread(c, step[1], step[1])
+                rec[1] = "ok"
+                rec[2] = bytes(r)
             elif kind == "close":
                 yield from drive.aclose(c)
                 rec[1] = "ok"
@@ -99,12 +104,21 @@ SCRIPT_S = [("read", 300), ("write", b"s" * 300), ("read", 40),
             ("read_eof",), ("close",)]
 
 
+# variant B: every read is a single read(min=n) spanning several records
+SCRIPT_CB = [("write", b"c" * 150), ("write", b"c" * 150), ("readmin", 300),
+             ("write", b"c2" * 20), ("close",)]
+SCRIPT_SB = [("readmin", 300), ("write", b"s" * 100), ("write", b"s" * 100),
+             ("write", b"s" * 100), ("readmin", 40), ("read_eof",),
+             ("close",)]
+SCRIPTS = {"A": (SCRIPT_C, SCRIPT_S), "B": (SCRIPT_CB, SCRIPT_SB)}
+
+
 def chunker(k):
     return (lambda sock, n, avail: min(n, k)) if k else None
 
 
 def run_script(sc, label, faults_c=None, faults_s=None, opts_c=None,
-               opts_s=None, tweak=None, chunk=0):
+               opts_s=None, tweak=None, chunk=0, script="A"):
     boot.install_vclock(1_800_000_000.0)
     boot.drbg.reseed(label + "/prep")
     st = sc.prepare()
@@ -116,8 +130,10 @@ def run_script(sc, label, faults_c=None, faults_s=None, opts_c=None,
     fl = sc.flavor(st)
     if tweak:
         tweak(p)
-    pc = Prog(p.c, fl.client_gen(p.c), "client", SCRIPT_C, opts_c or {})
-    ps = Prog(p.s, fl.server_gen(p.s), "server", SCRIPT_S, opts_s or {})
+    pc = Prog(p.c, fl.client_gen(p.c), "client", SCRIPTS[script][0],
+              opts_c or {})
+    ps = Prog(p.s, fl.server_gen(p.s), "server", SCRIPTS[script][1],
+              opts_s or {})
     tc, ts = p.run(pc.run(), ps.run(), max_steps=20000)
     return p, pc, ps, tc, ts
 
@@ -125,12 +141,12 @@ def run_script(sc, label, faults_c=None, faults_s=None, opts_c=None,
 _hon = {}
 
 
-def honest(sc, label, chunk=0):
-    k = (sc.name, label, chunk)
+def honest(sc, label, chunk=0, script="A"):
+    k = (sc.name, label, chunk, script)
     if k not in _hon:
         if len(_hon) > 4:
             _hon.clear()
-        _hon[k] = run_script(sc, label, chunk=chunk)
+        _hon[k] = run_script(sc, label, chunk=chunk, script=script)
     return _hon[k]
 
 
@@ -155,6 +171,36 @@ def make_cases(ctx):
                     yield "%s-%s-%s-%d-%s" % (name, side, kind, i, f), dict(
                         sc=name, label=label, side=side, kind=kind, idx=i,
                         fault=f)
+        # variant B (reads with min spanning records): receive faults
+        pB, _, _, tcB, tsB = honest(sc, label, 0, "B")
+        if tcB.status != "done" or tsB.status != "done":
+            yield "ctlB-" + name, dict(sc=name, label=label, ctl=True,
+                                       script="B")
+        else:
+            for side, sock in (("client", pB.csock), ("server", pB.ssock)):
+                for kind, n in (("recv", sock.n_recv), ("send", sock.n_send)):
+                    for i in range(n):
+                        for f in FAULTS[kind]:
+                            yield "%s-B-%s-%s-%d-%s" % (name, side, kind, i,
+                                                        f), dict(
+                                sc=name, label=label, side=side, kind=kind,
+                                idx=i, fault=f, script="B")
+            for j in range(ctx.pick(4, 24)):
+                side = rng.choice(["client", "server"])
+                sock = pB.csock if side == "client" else pB.ssock
+                yield "%s-B-opt-%d" % (name, j), dict(
+                    sc=name, label=label, side=side, kind="recv",
+                    idx=rng.randrange(max(1, sock.n_recv)),
+                    fault=rng.choice(FAULTS["recv"]), script="B",
+                    opts=dict(closeSocket=rng.random() < 0.5,
+                              ignoreAbruptClose=rng.random() < 0.5))
+        # the peer's fatal alert is waiting unread when a send fails
+        for i in range(counts[("client", "send")]):
+            yield "%s-alertpipe-client-%d" % (name, i), dict(
+                sc=name, label=label, alertpipe=i, side="client")
+        for i in range(counts[("server", "send")]):
+            yield "%s-alertpipe-server-%d" % (name, i), dict(
+                sc=name, label=label, alertpipe=i, side="server")
         # chunked transport: the fault falls inside record headers/bodies
         for chunk in (7,):
             p2, _, _, tc2, ts2 = honest(sc, label, chunk)
@@ -212,13 +258,24 @@ def post_state(ctx, key, W, who, conn, sock, link):
                       "%s not closed after failure" % who)
         return
     try:
-        t = drive.Task("r", drive.aread(conn, 10, 1), sock)
-        drive.run([t], link, max_steps=200)
-        if t.status != "done" or t.result != b"":
+        # bytes that were received and authenticated before the failure may
+        # still be handed out (the failing call itself raised); after them
+        # reads return empty
+        left = bytearray()
+        for _ in range(80):
+            t = drive.Task("r", drive.aread(conn, 10, 1), sock)
+            drive.run([t], link, max_steps=200)
+            if t.status != "done" or t.result == b"":
+                break
+            left += t.result
+        if t.status != "done" or t.result != b"" or \
+                left.strip(b"sc2") != b"":
             ctx.violation(dict(key, clause="read_after_close", who=who,
                                got=str(outcome(t))), W,
-                          "read on a closed connection: %r %r" % (
-                              t.status, t.exc))
+                          "read on a closed connection: %r %r %r" % (
+                              t.status, t.exc, bytes(left[:40])))
+        elif left:
+            ctx.count("buffered_bytes_drained_after_failure")
     except Exception as e:   # noqa
         ctx.violation(dict(key, clause="read_after_close", who=who,
                            exc=type(e).__name__), W, repr(e))
@@ -309,7 +366,8 @@ def run_fault(ctx, cid, P):
         descr.append("%s.%s[%d]=%s" % (side, kind, idx, f))
     opts = P.get("opts") or {}
     p, pc, ps, tc, ts = run_script(sc, label, fc, fs, opts_c=opts,
-                                   opts_s=opts, chunk=P.get("chunk", 0))
+                                   opts_s=opts, chunk=P.get("chunk", 0),
+                                   script=P.get("script", "A"))
     fired_c = p.csock.dead is not None
     fired_s = p.ssock.dead is not None
     if not (fired_c or fired_s):
@@ -339,15 +397,94 @@ def run_fault(ctx, cid, P):
                         not (b"c2" * 20).startswith(op[2]):
                     ctx.violation(dict(key, clause="corrupt_data"), W,
                                   "read returned bytes never written")
+    # truncation must never look like end of data: a read that returns
+    # fewer bytes than asked for (or nothing) without raising is legitimate
+    # only after the peer's close_notify, i.e. after the peer began close()
+    for prog, other, who in ((pc, ps, "client"), (ps, pc, "server")):
+        peer_closing = any(o[0] == "close" for o in other.ops)
+        if peer_closing or prog.opts.get("ignoreAbruptClose"):
+            continue
+        for op, step in zip(prog.ops[1:], prog.script):
+            if op[1] != "ok" or op[0] not in ("read", "readmin", "read_eof"):
+                continue
+            want = step[1] if len(step) > 1 else 1
+            if len(op[2] or b"") < want:
+                ctx.violation(dict(key, clause="truncation_as_end_of_data",
+                                   who=who, op=op[0],
+                                   partial=bool(op[2])), W,
+                              "%s: %s returned %d of %d bytes without an "
+                              "error although the peer never sent "
+                              "close_notify" % (who, op[0],
+                                                len(op[2] or b""), want))
+                break
+            ctx.count("full_reads_checked")
     first = specs[0]
     phase_c = "hs" if not pc.hs_done else "data"
-    ctx.cell("cell", "%s|%s.%s|%s|%s|%s/%s|c%d" % (
+    ctx.cell("cell", "%s|%s.%s|%s|%s|%s/%s|c%d%s" % (
         sc.name, first[0], first[1], first[3], phase_c, oc, os_,
-        P.get("chunk", 0)))
+        P.get("chunk", 0), P.get("script", "A")))
     if len(ctx.samples) < 5:
         ctx.sample({"case": cid, "faults": descr, "client": oc,
                     "server": os_, "client_ops": W["client_ops"],
                     "server_ops": W["server_ops"]})
+
+
+def run_alertpipe(ctx, cid, P):
+    """the i-th send of one side fails with EPIPE while a fatal alert from
+    the peer is already in its receive queue (peer alerted and closed)"""
+    sc = flavours.BY_NAME[P["sc"]]
+    side, idx = P["side"], P["alertpipe"]
+    f = {("send", idx): "alert_epipe"}
+    p, pc, ps, tc, ts = run_script(sc, P["label"],
+                                   f if side == "client" else None,
+                                   f if side == "server" else None)
+    sock = p.csock if side == "client" else p.ssock
+    if sock.dead_send is None:
+        ctx.count("fault_not_reached")
+        return
+    prog, task, conn = (pc, tc, p.c) if side == "client" else (ps, ts, p.s)
+    fam = "tls13" if sc.ver == (3, 4) else "le12"
+    key = {"fam": fam, "fault": "alert_epipe", "who": side}
+    W = {"case": cid, "scenario": sc.name, "send_index": idx,
+         "ops": [o[:2] for o in prog.ops], "outcome": str(outcome(task))}
+    ctx.ev()
+    ctx.count("alertpipe_runs")
+    phase = "handshake" if not prog.hs_done else "data"
+    e = task.exc
+    cls = mon.classify_exc(e) if e is not None else task.status
+    if cls.startswith("undocumented"):
+        ctx.violation(dict(key, clause="undocumented_exception",
+                           exc=type(e).__name__, frame=task.frame()), W,
+                      repr(e))
+    elif task.status in ("stalled", "budget"):
+        ctx.violation(dict(key, clause="hang_after_fault", how=task.status),
+                      W, "endpoint did not return after its send failed")
+    elif phase == "handshake":
+        # the very first send of a handshake is written straight to the
+        # socket: tlslite then looks for the peer's alert (anchor "send
+        # failure during handshake looks for peer alert"); later flights go
+        # through BufferedSocket.flush(), where the socket error itself is
+        # what the caller gets - both are faithful reports
+        surfaced = isinstance(e, E.TLSRemoteAlert) and e.description == 40
+        if surfaced:
+            ctx.count("pending_alert_surfaced")
+            if conn.session is not None and conn.session.resumable:
+                ctx.violation(dict(key, clause="resumable_after_fatal_alert"),
+                              W, "")
+        elif idx == 0 and side == "client":
+            ctx.violation(dict(key, clause="pending_alert_not_surfaced",
+                               got=cls), W,
+                          "ClientHello send failed with the peer's fatal "
+                          "alert waiting; caller got %r" % (e,))
+        elif isinstance(e, OK_TRANSPORT) or isinstance(e, E.TLSRemoteAlert):
+            ctx.count("send_fault_reported_as_" + cls)
+        else:
+            ctx.violation(dict(key, clause="wrong_exception", got=cls), W,
+                          repr(e))
+        if not conn.closed:
+            ctx.violation(dict(key, clause="not_closed"), W, "")
+    ctx.cell("cell", "%s|alertpipe|%s|%d|%s|%s" % (sc.name, side, idx, phase,
+                                                   cls))
 
 
 def run_alert(ctx, cid, P):
@@ -565,7 +702,8 @@ def run_close(ctx, cid, P):
 def run_case(ctx, cid, P):
     if P.get("ctl"):
         sc = flavours.BY_NAME[P["sc"]]
-        p, pc, ps, tc, ts = honest(sc, P["label"], P.get("chunk", 0))
+        p, pc, ps, tc, ts = honest(sc, P["label"], P.get("chunk", 0),
+                                   P.get("script", "A"))
         ctx.ev()
         if tc.status != "done" or ts.status != "done":
             ctx.inconc("honest script failed: %s %r %r" % (sc.name, tc.exc,
@@ -575,6 +713,8 @@ def run_case(ctx, cid, P):
             ctx.maxi("io_calls", p.csock.n_recv + p.csock.n_send +
                      p.ssock.n_recv + p.ssock.n_send)
         return
+    if "alertpipe" in P:
+        return run_alertpipe(ctx, cid, P)
     if "alert" in P:
         return run_alert(ctx, cid, P)
     if "close" in P:
@@ -596,6 +736,10 @@ def finalize(m, tier):
         out.append("fewer than 300 fault runs")
     if c.get("fatal_surfaced", 0) == 0:
         out.append("no fatal alert surfaced")
+    if c.get("pending_alert_surfaced", 0) == 0:
+        out.append("no send failure with a pending alert was surfaced")
+    if c.get("full_reads_checked", 0) == 0:
+        out.append("read completeness oracle never evaluated")
     if c.get("orderly_closes", 0) == 0:
         out.append("no orderly close checked")
     return out
